@@ -100,7 +100,7 @@ def oracle_C01(rs, n, ctx):
     R = Result()
     for it in range(n):
         nd = 2 if rs.rand() < 0.6 else 3
-        cells, d, o = rand_setup(rs, nd, 1, 30 if nd == 2 else 9, aspect=2.0 if nd == 2 else None)
+        cells, d, o = rand_setup(rs, nd, 1, 30 if nd == 2 else 12, aspect=2.0 if nd == 2 else None)
         vel = float(rs.choice([0.5, 1.0, 2.0, 3.5, 1500.0]))
         v = np.full(cells, vel)
         srel, scls = gens.rand_source_rel(rs, cells, d)
@@ -446,22 +446,44 @@ def oracle_C04(rs, n, ctx):
                     R.violate("C04:edge", f"edge {idx}->{nb}: |dT|={diff!r} > d*smin={lim!r}", rep)
                     break
         R.maxstat("max_edge_excess_rel", worst)
-        # lower bound: never faster than the straight line at the smallest slowness (discretisation tolerance:
-        # the same first-order allowance as C01/C02)
-        G, _ = node_coords(g.shape, d, o)
-        dist = np.sqrt(sum((G[a] - src[a]) ** 2 for a in range(nd)))
-        smin = float(slow.min())
-        lower = smin * dist
-        # discretisation tolerance as documented for homogeneous media (C01): 2.5% in 2D for aspect ratios up to 2,
-        # otherwise the time to cross one cell along its longest side
-        if nd == 2 and max(d) / min(d) <= 2:
-            tol = 0.025 * lower + 1e-9 * max(d) * smin
-        else:
-            tol = max(d) * smin * (1 + 1e-9)
-        if (g < lower - tol).any():
-            k = np.unravel_index(np.argmax(lower - g), g.shape)
-            R.violate("C04:faster-than-physics", f"node {k}: T={g[k]!r} < smin*dist={lower[k]!r}", rep)
-        R.maxstat("max_lower_violation_rel", float(((lower - g) / np.maximum(lower, 1e-300)).max()))
+        lower_bound_clause(R, g, v, d, o, src, nd, rep)
+    # first clause on larger grids (no need to iterate to the fixed point): errors that grow with distance show up
+    # only far from the source
+    for it in range(max(4, n // 3)):
+        nd = 2 if rs.rand() < 0.5 else 3
+        cells, d, o = rand_setup(rs, nd, 6, 24 if nd == 2 else 9)
+        v, kind = gens.rand_model(rs, cells)
+        srel, scls = gens.rand_source_rel(rs, cells, d)
+        src = abs_source(o, srel, d, cells)
+        rep = model_replay(v, d, o, src, kind=str(kind), cls=str(scls), clause="lower-bound")
+        try:
+            g = eik(nd)(v, d, o).solve(src, nsweep=3).grid
+        except Exception as ex:  # noqa: BLE001
+            R.violate("C04:raises", f"{type(ex).__name__}: {ex}", rep)
+            continue
+        R.case((nd, cells, d, kind, scls, "lb"), None)
+        lower_bound_clause(R, g, v, d, o, src, nd, rep)
+    return R
+
+
+def lower_bound_clause(R, g, v, d, o, src, nd, rep):
+    """never faster than the straight line at the smallest slowness (discretisation tolerance as documented for
+    homogeneous media, C01: 2.5% in 2D for aspect ratios up to 2, otherwise one cell along its longest side)"""
+    slow = 1.0 / v
+    G, _ = node_coords(g.shape, d, o)
+    dist = np.sqrt(sum((G[a] - src[a]) ** 2 for a in range(nd)))
+    smin = float(slow.min())
+    lower = smin * dist
+    if nd == 2 and max(d) / min(d) <= 2:
+        tol = 0.025 * lower + 1e-9 * max(d) * smin
+    else:
+        tol = max(d) * smin * (1 + 1e-9)
+    if (g < lower - tol).any():
+        k = np.unravel_index(np.argmax(lower - tol - g), g.shape)
+        R.violate("C04:faster-than-physics", f"node {tuple(int(x) for x in k)}: T={g[k]!r} < smin*dist={lower[k]!r} (tolerance {float(np.ravel(tol)[0]) if np.ndim(tol) == 0 else float(tol[k]):.3e})", rep)
+    R.maxstat("max_lower_violation_in_cell_times", float(((lower - g) / (max(d) * smin)).max()))
+
+
     return R
 
 
